@@ -118,6 +118,13 @@ CHECKS = {
             "subset and every interruption point against the documented sqlite3 context-manager contract.",
             TRUST + "The hand-written SQLite semantics (LIKE/GLOB/substr/instr, GROUP BY, LIMIT) is validated differentially against real SQLite on "
             "~17 000 concrete rows each run. Multi-process schedules, crashes inside SQLite and durability are NOT claimed.", "DESIGN.md#C09"),
+    "C16": (True, "model_checking",
+            "symbolic execution of RemoveImportsTransformer with solver-string ImportItems on pre-parsed trees, and of MoveImportsToTypeCheckingBlockVisitor.transform_module over (source, stub) selectors (CrossHair+z3)",
+            "Claimed in part. The import items to move have symbolic module/object strings, so the solver searches for any item that makes the "
+            "transformer delete an import the source already had; the full confinement pass runs under the engine on natively annotated trees and the "
+            "resulting module must keep its imports, confine exactly the annotation-only new ones, keep typing and the TypedDict base at runtime, "
+            "and execute.",
+            TRUST + "libcst's parser and annotation insertion run natively as preparation and are not claimed.", "DESIGN.md#C16"),
 }
 
 NOT_APPLICABLE = {
